@@ -101,18 +101,12 @@ var triggers = []trigger{
 		},
 	},
 	{
-		// MVP-7.0/7.1: a pipeline flush cancels in-flight cache requests
-		// (cc.flush resets the read/write coroutines) while the MSI directory still
-		// holds their pending commands and line locks: later requests find an
-		// "invalid state", unlock a lock they do not hold, or wait forever.
-		id: "KF-W5", props: wmProps,
+		// MVP-7.x/8 with two or more cores: the per-line lock serialises the
+		// cores but not in program order; a store and another access to the
+		// same line issued to different cores can be performed out of order.
+		id: "KF-W9", props: wmProps,
 		match: func(c *core.Case, f *features, class string) bool {
-			v := c.Cfg.V
-			n := f.loads + f.stores
-			if f.shadowHasMem {
-				n++ // a wrong-path access counts: it is what gets cancelled
-			}
-			return (v == mach.MVP70 || v == mach.MVP71) && c.Cfg.Cores >= 2 && n >= 2 && f.redirects >= 1
+			return c.Cfg.V >= mach.MVP70 && c.Cfg.Cores >= 2 && f.conflictSameLine && isMismatch(class)
 		},
 	},
 	{
